@@ -18,6 +18,9 @@ func NewYaml(body []byte) (*Yaml, error) {
 	if err != nil {
 		return nil, errors.New("unmarshal []byte to yaml failed: " + err.Error())
 	}
+	if len(val.Content) == 0 {
+		return nil, errors.New("unmarshal []byte to yaml failed: empty document")
+	}
 	root := val.Content[0]
 	return &Yaml{root}, nil
 }
